@@ -15,9 +15,11 @@ vars == <<l, cache>>
 Absent == [k |-> "absent", srv |-> "", dt |-> 0]
 Good == {"newer", "bumpnewer"}
 
+\* (total: a file the history did not announce counts as absent before its first event and is reported)
+CacheOf(k) == IF k \in DOMAIN cache THEN cache[k] ELSE Absent
 JudgeIO(e) ==
-  LET before == cache[e.key] IN
-  << <<"cache-whole-or-absent after " \o e.step, e.file.k \in {"absent", "whole"}>>,
+  LET before == CacheOf(e.key) IN
+  << <<"cache-file-announced-by-the-history " \o e.key, e.key \in DOMAIN cache>>, <<"cache-whole-or-absent after " \o e.step, e.file.k \in {"absent", "whole"}>>,
      <<"cache-never-vanishes after " \o e.step, before.k = "whole" => e.file.k # "absent">>,
      <<"cache-never-older after " \o e.step, (before.k = "whole" /\ e.file.k = "whole") => e.file.dt >= before.dt>>,
      <<"cache-belongs-to-server after " \o e.step, e.file.k = "whole" => e.file.srv = e.srv>> >>
@@ -38,7 +40,7 @@ Init == l = 1 /\ cache = [none |-> Absent]
 Next == /\ l <= Len(Log)
         /\ LET e == Log[l] IN
            CASE e.op = "env" -> cache' = [k \in {e.keys[i] : i \in 1..Len(e.keys)} |-> Absent]
-             [] e.op = "io" -> Report(e.id, JudgeIO(e)) /\ cache' = [cache EXCEPT ![e.key] = e.file]
+             [] e.op = "io" -> Report(e.id, JudgeIO(e)) /\ cache' = [k \in DOMAIN cache \cup {e.key} |-> IF k = e.key THEN e.file ELSE cache[k]]
              [] e.op = "ret" -> Report(e.id, JudgeRet(e)) /\ UNCHANGED cache
              [] OTHER -> UNCHANGED cache
         /\ l' = l + 1
